@@ -1116,3 +1116,94 @@ Proof.
     unfold tevents in Hl. cbn in Hl. rewrite app_nil_r in Hl. rewrite Hl, rev_involutive, Htr, Hf, Hd.
     reflexivity.
 Qed.
+
+(* ---- outside the class of the known finding the strict monitor is the lenient one ------ *)
+Lemma effect_strict_eq m e md : retrap_ev m e = false -> effect true m e md = effect false m e md.
+Proof.
+  destruct e as [k b a | sg b a | sg a b]; try reflexivity.
+  cbn. destruct (owed_of (m_owed m) sg); try reflexivity.
+  rewrite andb_true_r. intros ->. reflexivity.
+Qed.
+
+Lemma in_body_strict_eq tbl m e rest saved :
+  retrap_ev m e = false -> in_body true tbl m e rest saved = in_body false tbl m e rest saved.
+Proof.
+  intros H. unfold in_body. destruct rest as [|b rest']; [reflexivity|].
+  rewrite (effect_strict_eq m e (MBody rest' saved) H). reflexivity.
+Qed.
+
+Lemma mon_event_strict_eq tbl m e :
+  retrap_ev m e = false -> mon_event true tbl m e = mon_event false tbl m e.
+Proof.
+  intros H. unfold mon_event. destruct (m_dead m); [reflexivity|].
+  destruct (m_mode m) as [|rest saved]; [|apply in_body_strict_eq; exact H].
+  destruct (starts_body e) as [id|] eqn:Es.
+  - destruct (owed_signal m id); [|reflexivity].
+    apply in_body_strict_eq. destruct e; try discriminate. reflexivity.
+  - rewrite (effect_strict_eq m e MMain H). reflexivity.
+Qed.
+
+Lemma retrap_ev_fresh cur last e : retrap_ev (mkMon cur [] last MMain None) e = false.
+Proof. destruct e; try reflexivity. cbn. apply andb_false_r. Qed.
+
+Lemma top_event_strict_eq tbl t p e :
+  match event_mon t p with Some m => retrap_ev m e | None => false end = false ->
+  top_event true tbl t (p, e) = top_event false tbl t (p, e).
+Proof.
+  unfold event_mon, top_event. destruct (N.eqb p 0).
+  - destruct (finish_child t) as [t1|k]; [|reflexivity].
+    intros H. rewrite (mon_event_strict_eq tbl (t_par t1) e H). reflexivity.
+  - assert (Hstart : forall t0 : top,
+      (if negb (N.eqb p (t_next t0)) then inr R_PROC
+       else match m_dead (t_par t0) with
+            | Some _ => inr R_AFTER_DEATH
+            | None =>
+                if negb (mon_finished (t_par t0)) then inr R_PROC
+                else match mon_event true tbl
+                             (mkMon (reset_cur (m_cur (t_par t0))) [] (m_last (t_par t0)) MMain None) e with
+                     | inl cm' => inl (mkTop (t_par (mkTop (t_par t0) None (p + 1))) (Some (p, cm'))
+                                             (t_next (mkTop (t_par t0) None (p + 1))))
+                     | inr k => inr k
+                     end
+            end) =
+      (if negb (N.eqb p (t_next t0)) then inr R_PROC
+       else match m_dead (t_par t0) with
+            | Some _ => inr R_AFTER_DEATH
+            | None =>
+                if negb (mon_finished (t_par t0)) then inr R_PROC
+                else match mon_event false tbl
+                             (mkMon (reset_cur (m_cur (t_par t0))) [] (m_last (t_par t0)) MMain None) e with
+                     | inl cm' => inl (mkTop (t_par (mkTop (t_par t0) None (p + 1))) (Some (p, cm'))
+                                             (t_next (mkTop (t_par t0) None (p + 1))))
+                     | inr k => inr k
+                     end
+            end)).
+    { intros t0. rewrite (mon_event_strict_eq tbl _ e (retrap_ev_fresh _ _ e)). reflexivity. }
+    destruct (t_child t) as [[q cm]|].
+    + destruct (N.eqb q p).
+      * intros H. rewrite (mon_event_strict_eq tbl cm e H). reflexivity.
+      * intros _. destruct (finish_child t) as [t1|k]; [apply Hstart | reflexivity].
+    + intros _. apply Hstart.
+Qed.
+
+Lemma top_run_strict_eq tbl l : forall t,
+  retrap_free_from tbl t l = true -> top_run true tbl t l = top_run false tbl t l.
+Proof.
+  induction l as [|[p e] l IH]; intros t H; [reflexivity|].
+  cbn [retrap_free_from] in H. apply andb_true_iff in H. destruct H as [H1 H2].
+  apply negb_true_iff in H1. cbn [top_run].
+  rewrite (top_event_strict_eq tbl t p e H1).
+  destruct (top_event false tbl t (p, e)) as [t'|k]; [apply IH; exact H2 | reflexivity].
+Qed.
+
+Lemma script_monitor_strict_thm tbl bf main trace dead :
+  script_ok tbl main = true ->
+  run_script tbl bf main = Some (trace, dead) ->
+  trace_retrap_free tbl trace = true ->
+  monitor true tbl trace dead = None.
+Proof.
+  intros Hok Hrun Hfree.
+  pose proof (script_monitor_sound_thm tbl bf main trace dead Hok Hrun) as H.
+  unfold monitor in *. unfold trace_retrap_free in Hfree.
+  rewrite (top_run_strict_eq tbl trace top_init Hfree). exact H.
+Qed.
